@@ -1,7 +1,7 @@
 /-
 C07 — property theorems: "Secure implies an unbroken chain to a trust anchor", about the model
 `Chain.validate` (Model/Chain.lean) of the validator *as repaired* by the fix commits aabfc01, e338561,
-8ec5af8, cdd0f6a, 2bee91e, a0f75fc, 207ce2a.  For every upstream `env.up`, every oracle valuation, every query,
+8ec5af8, cdd0f6a, 2bee91e, a0f75fc, 1223dc5, 207ce2a.  For every upstream `env.up`, every oracle valuation, every query,
 every fuel (= `request_depth` budget) — so for every hierarchy and every way of tampering with any response.
 All at full strength:
 
@@ -222,10 +222,11 @@ def NsecDenied (env : Env) (q : Query) (m' : Msg) : Prop :=
 /-- the name whose zone must be provably insecure: the query name, for a DS query its parent -/
 def dsNameOf (q : Query) : DName := if q.qtype == tDS then q.name.baseName else q.name
 
-/-- **The exits of `verify_response`** (after fixes 2bee91e, a0f75fc): a response is returned `Ok` only if
+/-- **The exits of `verify_response`** (after fixes 2bee91e, a0f75fc, 1223dc5): a response is returned `Ok` only if
 (1) its verified authority RRsets are Insecure throughout *and* `find_ds_records` proves the query name insecure,
-(2) it is a plain positive answer: NOERROR, no wildcard expansion, a record of the query name and type in the
-    answer section (denial records attached to it are then not evaluated),
+(2) it is a plain positive answer: NOERROR, no wildcard expansion, in the answer section a record of the query
+    name and type, or a CNAME at the query name while the authority section has no SOA (denial records attached
+    to it are then not evaluated; 1223dc5),
 (3) the NSEC/NSEC3 oracle says Secure on the denial records selected from Secure owners,
 (4) there are no such records, no wildcard answer, and the answer section answers the question (a record of the
     queried type, or a CNAME, at the query name), or
@@ -234,7 +235,7 @@ theorem ok_exits (env : Env) (sub : Query → Res) (d : Nat) (q : Query) (m m' :
     (h : verifyMsg env sub d q (env.up q).qid m = .ok m') :
     (allAuthInsecure m'.ns (verdicts env sub d q (env.up q).qid 1 m.ns) = true ∧
       findDs env sub (dsNameOf q) = .err .insecure) ∨
-    (m'.rcode = 0 ∧ plainAnswer q m'.an = true) ∨
+    (m'.rcode = 0 ∧ plainAnswer q m'.an m'.ns = true) ∨
     NsecDenied env q m' ∨
     (selectDenial m'.ns tNSEC3 = [] ∧ selectDenial m'.ns tNSEC = [] ∧ answersTheQuestion q m'.an = true) ∨
     (answersTheQuestion q m'.an = false ∧ findDs env sub (dsNameOf q) = .err .insecure) := by
